@@ -22,6 +22,8 @@ type vfStream struct {
 	cond    *sync.Cond
 	ends    [2]*vfStreamEnd
 	stalled bool
+	// stallActive: which ends still had a driving goroutine when the stall was declared
+	stallActive [2]bool
 	monitor bool // stall detection enabled (exact only with one driving goroutine per end)
 	yield   func() bool
 }
@@ -281,6 +283,9 @@ func (s *vfStream) watch() {
 			}
 		}
 		if quiet {
+			if !s.stalled {
+				s.stallActive = [2]bool{s.ends[0].active > 0, s.ends[1].active > 0}
+			}
 			s.stalled = true
 			for _, e := range s.ends {
 				e.closed = true
